@@ -12,7 +12,8 @@ FP = "python/filepath.py"
 SOB = "persisted/sob.py"
 QS = "twisted.python.filepath.FilePath.setContent"
 QP = "twisted.persisted.sob.Persistent"
-TECHNIQUE = "atomic-replace CFG order + argument provenance, symbolic per-path file names"
+TECHNIQUE = ("atomic-replace CFG order + argument provenance, symbolic per-path file names; a private @contextmanager generator is read with the with-body "
+             "in place of its yield")
 EXPLANATION = (
     "Decides for FilePath.setContent and sob.Persistent.save/_saveTemp: (1) the only handle opened for writing is on the "
     "temporary (temporarySibling(ext) / the second name of _getFilename), (2) the write happens inside a with block that is "
